@@ -23,6 +23,8 @@
 #include <unistd.h>
 #include <sys/wait.h>
 #include <execinfo.h>
+#include <cstring>
+#include "watchdog.h"
 using namespace photon;
 
 struct Rec { int kind; int t; int a; long b; };
@@ -105,14 +107,13 @@ static void vmain(int v) {
     vcpu_fini(); phase[v] = 8;
 }
 static void dump_log();
-static long alarm_seen = -1; static int alarm_ticks = 0;
-// every 10 s: no event logged since the last tick = hung; still progressing after 300 s = the machine is too loaded (inconclusive)
-static void on_alarm(int) {
-    long p = logpos.load();
-    if (p == alarm_seen) { dump_log(); printf("phases"); for (int v = 0; v < NV; ++v) printf(" %d", phase[v]); printf(" ended=%d\n", ended.load()); printf("result hung\n"); fflush(stdout); _exit(0); }
-    alarm_seen = p;
-    if (++alarm_ticks >= 30) { dump_log(); printf("result slow\n"); fflush(stdout); _exit(0); }
-    alarm(10);
+// hang / slow verdicts: watchdog.h (no event logged in 2 windows of 10 s in which the machine ran every thread = hung; no verdict after 300 s =
+// the machine is too loaded: result slow, inconclusive)
+static long wd_progress() { return logpos.load(); }
+static void on_verdict(const char* result) {
+    dump_log(); wd::print_diag();
+    if (!strcmp(result, "result hung")) { printf("phases"); for (int v = 0; v < NV; ++v) printf(" %d", phase[v]); printf(" ended=%d\n", ended.load()); }
+    printf("%s\n", result); fflush(stdout); _exit(0);
 }
 
 static void dump_log() {
@@ -134,7 +135,7 @@ static void dump_log() {
 static void on_segv(int sig) { void* bt[40]; int n = backtrace(bt, 40); printf("segv signal=%d phases", sig); for (int v = 0; v < NV; ++v) printf(" %d", phase[v]); printf("\n"); fflush(stdout); backtrace_symbols_fd(bt, n, 1); printf("result crashed signal=%d\n", sig); fflush(stdout); _exit(0); }
 
 static int run_program(const std::vector<std::string>& lines) {
-    signal(SIGALRM, on_alarm); alarm(10);
+    wd::start(wd_progress, on_verdict);
     if (!getenv("MV_CORE")) { signal(SIGSEGV, on_segv); signal(SIGBUS, on_segv); signal(SIGABRT, on_segv); }
     set_log_output(log_output_null);
     logbuf = new Rec[MAXLOG];
